@@ -451,4 +451,56 @@ def dcVisible (isUdp exempt : Bool) (advSeen : Nat) (r1 : Resp) (opt : Option Op
     r1.unc + optLen? opt
   else finalLen r1 (dcTruncate isUdp exempt advSeen r1 opt) opt
 
+/-! ### Shared record objects (round 6)
+
+A handler may answer with the OPT record *object* of the request (`resp.Extra = req.Extra`).  The
+values are those of any own OPT record, but whatever the write path later writes into the request's
+record then shows in the response.  The one such write is DNSCrypt/UDP's lowering of the size the
+library reads.  A three-cell store of UDP-size fields is enough to say it. -/
+
+/-- Identity of an OPT record object: the request's, one only the response holds, the copy
+`replaceOPT` allocates. -/
+inductive OptCell where
+  | reqRec | ownRec | copyRec
+deriving DecidableEq, Repr
+
+/-- The UDP-size (class) field of each record object. -/
+structure OptStore where
+  reqRec : Nat
+  ownRec : Nat
+  copyRec : Nat
+deriving DecidableEq, Repr
+
+def OptStore.get (s : OptStore) : OptCell → Nat
+  | .reqRec => s.reqRec
+  | .ownRec => s.ownRec
+  | .copyRec => s.copyRec
+
+def OptStore.set (s : OptStore) (c : OptCell) (v : Nat) : OptStore :=
+  match c with
+  | .reqRec => { s with reqRec := v }
+  | .ownRec => { s with ownRec := v }
+  | .copyRec => { s with copyRec := v }
+
+/-- `dnsCryptHandler.ServeDNS` on UDP for a query with an OPT record, as writes to size fields in
+source order.  `respCell` is the object the response's OPT record is.  `normalize` reads the
+client's size from the request's record and writes it into the response's
+(`respOpt.SetUDPSize(ednsUDPSize)`); then the size the library will read is lowered to
+`min(size, configured)` — `inPlace = true`: in the request's record itself (the round-5 code),
+otherwise in the copy `replaceOPT` puts in the request's place.  Result: (the size the library reads
+from the request, the size in the response's OPT record when it is packed). -/
+def dcLowerRun (inPlace : Bool) (respCell : OptCell) (adv ownSize cfgMax : Nat) : Nat × Nat :=
+  let s0 : OptStore := { reqRec := adv, ownRec := ownSize, copyRec := 0 }
+  let s1 := s0.set respCell (s0.get .reqRec)
+  let reqCell : OptCell := if inPlace then .reqRec else .copyRec
+  let s2 := if inPlace then s1 else s1.set .copyRec (s1.get .reqRec)
+  let s3 := s2.set reqCell (min (s1.get .reqRec) cfgMax)
+  (s3.get reqCell, s3.get respCell)
+
+/-- The DNSCrypt bootstrap answer the library itself gives to a plain (unencrypted) TXT query for
+the provider name (`Server.handleHandshake`): `SetReply` + one TXT record owned by the query name,
+packed without compression and without an OPT record — 12 + (n+4) + (n+10) + 1 + 124 bytes for a
+provider name of `n` wire bytes and the 124-byte certificate. -/
+def dcCertRespLen (nameLen : Nat) : Nat := 12 + (nameLen + 4) + (nameLen + 10) + 1 + 124
+
 end Agd.Normalize
